@@ -337,6 +337,186 @@ fn explore_enum(prop: &str, idx: usize, e: &Entry, maxlen: usize, t: &mut Tally)
     }
 }
 
+// ------------------------------------------------------------------ C17: suggestions
+
+fn addressable_names(s: &StructDecl) -> Vec<String> {
+    s.fields.iter().filter(|f| f.addressable()).map(|f| s.eff_name(f)).collect()
+}
+
+/// Candidate lists for an unknown name entering struct `d`: innermost receiver first.
+fn candidate_chain(prog: &Program, d: usize) -> Vec<Vec<String>> {
+    let mut chain = vec![];
+    let mut cur = d;
+    loop {
+        let s = prog.st(cur);
+        chain.push(addressable_names(s));
+        match s.fields.iter().find(|f| f.flatten) {
+            Some(f) => match &f.ty {
+                Ty::Struct(c) | Ty::BoxStruct(c) => cur = *c,
+                _ => break,
+            },
+            None => break,
+        }
+    }
+    chain.reverse();
+    chain
+}
+
+/// Acceptable suggestions: the candidates with the maximal Jaro-Winkler score, if > 0.8.
+fn best_suggestions(name: &str, chain: &[Vec<String>]) -> Vec<String> {
+    let mut best = 0.0f64;
+    let mut out: Vec<String> = vec![];
+    for level in chain {
+        for c in level {
+            let sc = strsim::jaro_winkler(name, c);
+            if sc > 0.8 {
+                if sc > best + 1e-12 {
+                    best = sc;
+                    out = vec![c.clone()];
+                } else if (sc - best).abs() <= 1e-12 {
+                    out.push(c.clone());
+                }
+            }
+        }
+    }
+    out
+}
+
+fn parse_suggestion(display: &str) -> Option<String> {
+    let i = display.find(". Did you mean `")?;
+    let rest = &display[i + 16..];
+    let j = rest.find("`?")?;
+    Some(rest[..j].to_string())
+}
+
+fn explore_sugg(idx: usize, e: &Entry, thorough: bool, feature_on: bool, t: &mut Tally) {
+    let prog = &e.prog;
+    // every name of the program, valid or not
+    let mut seeds: Vec<String> = vec![];
+    for d in &prog.decls {
+        match d {
+            Decl::Struct(s) => {
+                for f in &s.fields {
+                    seeds.push(f.rust.clone());
+                    seeds.push(s.eff_name(f));
+                }
+            }
+            Decl::Enum(en) => {
+                for v in &en.variants {
+                    seeds.push(en.eff_name(v));
+                }
+            }
+        }
+    }
+    seeds.sort();
+    seeds.dedup();
+    let mut names: std::collections::BTreeSet<String> = std::collections::BTreeSet::new();
+    for s in &seeds {
+        let d = if thorough { if s.len() <= 4 { 3 } else { 2 } } else if s.len() <= 4 { 2 } else { 1 };
+        names.extend(corpus::edits(s, d));
+    }
+    // positions: (template with {N}, candidate chain, names that are known there)
+    let mut positions: Vec<(String, Vec<Vec<String>>, Vec<String>)> = vec![];
+    match &prog.decls[prog.root] {
+        Decl::Enum(en) => {
+            let cands: Vec<String> = en.variants.iter().filter(|v| !v.skip).map(|v| en.eff_name(v)).collect();
+            positions.push(("#[e({N})] struct S;".into(), vec![cands.clone()], cands.clone()));
+            positions.push(("#[e({N} = 1)] struct S;".into(), vec![cands.clone()], cands));
+        }
+        Decl::Struct(_) => {
+            let chain = candidate_chain(prog, prog.root);
+            let known: Vec<String> = chain.iter().flatten().cloned().collect();
+            positions.push(("#[x({N} = 1)] struct S;".into(), chain.clone(), known.clone()));
+            positions.push(("#[x({N} = 1, zz9q = 2)] struct S;".into(), chain, known));
+            // nested (non-flatten) struct fields anywhere in the root's flatten chain
+            let mut cur = prog.root;
+            loop {
+                let s = prog.st(cur);
+                for f in &s.fields {
+                    if let (Ty::Struct(n), false) = (&f.ty, f.flatten) {
+                        let c = candidate_chain(prog, *n);
+                        let k: Vec<String> = c.iter().flatten().cloned().collect();
+                        let p = s.eff_name(f);
+                        positions.push((format!("#[x({p}({{N}} = 1))] struct S;"), c.clone(), k.clone()));
+                        positions.push((format!("#[x({p}({{N}} = 1, zz9q = 2))] struct S;"), c, k));
+                    }
+                }
+                match s.fields.iter().find(|f| f.flatten) {
+                    Some(f) => match &f.ty {
+                        Ty::Struct(c) | Ty::BoxStruct(c) => cur = *c,
+                        _ => break,
+                    },
+                    None => break,
+                }
+            }
+        }
+    }
+    for (tmpl, chain, known) in &positions {
+        for name in &names {
+            if known.contains(name) || syn::parse_str::<syn::Ident>(name).is_err() {
+                continue; // addressable there, or a keyword
+            }
+            let src = tmpl.replace("{N}", name);
+            let obs = (e.run)(&src);
+            t.evaluations += 1;
+            t.states += 1;
+            t.transitions += 1;
+            t.traces += 1;
+            let leaves = match &obs {
+                Obs::Err { leaves, .. } => leaves.clone(),
+                other => {
+                    t.violate(Violation { key: format!("C17 family=[{}] src=`{src}` :: not an error: {other:?}", prog.family), what: format!("[{}] `{src}`: expected an unknown-name error, got {other:?}", prog.family), case: json!({"engine": "corpus-sugg", "program": idx, "src": src}), detail: json!({}) });
+                    continue;
+                }
+            };
+            let want = if feature_on { best_suggestions(name, chain) } else { vec![] };
+            let mut complaints: Vec<String> = vec![];
+            let mut found = false;
+            for l in &leaves {
+                let is_target = l.display.starts_with(&format!("Unknown field: `{name}`"));
+                let sg = parse_suggestion(&l.display);
+                if is_target {
+                    found = true;
+                    match (&sg, want.is_empty()) {
+                        (None, true) => t.hit("no_suggestion_expected"),
+                        (Some(s), false) if want.contains(s) => {
+                            t.hit("suggestion_matches");
+                            t.nontrivial += 1;
+                            // soundness: the suggested name is accepted at that very position
+                            let src2 = tmpl.replace("{N}", s);
+                            if let Obs::Err { leaves: l2, .. } = (e.run)(&src2) {
+                                if l2.iter().any(|x| x.display.starts_with(&format!("Unknown field: `{s}`"))) {
+                                    complaints.push(format!("suggested `{s}` is itself rejected as unknown at that position"));
+                                }
+                            }
+                        }
+                        (Some(s), _) => complaints.push(format!("suggests `{s}`, expected {}", if want.is_empty() { "no suggestion".to_string() } else { format!("one of {want:?}") })),
+                        (None, false) => complaints.push(format!("no suggestion, expected one of {want:?}")),
+                    }
+                } else if sg.is_some() && !l.display.starts_with("Unknown field: `zz9q`") {
+                    complaints.push(format!("suggestion attached to another error: `{}`", l.display));
+                } else if l.display.starts_with("Unknown field: `zz9q`") && sg.is_some() {
+                    complaints.push(format!("`zz9q` resembles nothing but got a suggestion: `{}`", l.display));
+                }
+            }
+            if !found {
+                complaints.push(format!("no unknown-name error for `{name}` among {:?}", leaves.iter().map(|l| &l.display).collect::<Vec<_>>()));
+            }
+            for c in complaints {
+                t.violate(Violation {
+                    key: format!("C17 family=[{}] feature={} src=`{src}` :: {c}", prog.family, feature_on),
+                    what: format!("[{} suggestions={}] `{src}`: {c}", prog.family, if feature_on { "on" } else { "off" }),
+                    case: json!({"engine": "corpus-sugg", "program": idx, "src": src}),
+                    detail: json!({"observed": format!("{obs:?}"), "candidates": format!("{chain:?}")}),
+                });
+            }
+            if t.samples.is_empty() && !want.is_empty() {
+                t.samples.push(json!({"program": prog.family, "src": src, "candidates_innermost_first": chain, "expected_suggestion_any_of": want}));
+            }
+        }
+    }
+}
+
 // ------------------------------------------------------------------ C08: attribute selection
 
 fn element_attrs(t: Trait, di: &syn::DeriveInput) -> Vec<syn::Attribute> {
@@ -562,6 +742,12 @@ pub fn main(entries: Vec<Entry>) {
         let v: serde_json::Value = serde_json::from_str(&txt).unwrap();
         let c = &v["case"];
         let idx = c["program"].as_u64().unwrap() as usize;
+        if c["engine"] == "corpus-sugg" {
+            let src = c["src"].as_str().unwrap();
+            let obs = (entries[idx].run)(src);
+            println!("replay program {idx} [{}]\n  src: {src}\n  observed: {obs:?}", entries[idx].prog.family);
+            std::process::exit(0);
+        }
         if c["engine"] == "corpus-attrs" {
             let src = c["src"].as_str().unwrap();
             let obs = (entries[idx].run)(src);
@@ -607,7 +793,7 @@ pub fn main(entries: Vec<Entry>) {
         .iter()
         .enumerate()
         .flat_map(|(i, e)| {
-            let a = if prop == "C08" { corpus::attr_alphabet().len() } else if matches!(e.prog.decls[e.prog.root], Decl::Enum(_)) { 0 } else { corpus::root_alphabet(&e.prog).len() };
+            let a = if prop == "C17" { 0 } else if prop == "C08" { corpus::attr_alphabet().len() } else if matches!(e.prog.decls[e.prog.root], Decl::Enum(_)) { 0 } else { corpus::root_alphabet(&e.prog).len() };
             std::iter::once((i, None)).chain((0..a).map(move |f| (i, Some(f))))
         })
         .collect();
@@ -616,6 +802,13 @@ pub fn main(entries: Vec<Entry>) {
         .map(|(i, first)| {
             let e = &entries[*i];
             let mut t = Tally::default();
+            if prop == "C17" {
+                if first.is_none() {
+                    explore_sugg(*i, e, thorough, !args.iter().any(|a| a == "--no-sugg"), &mut t);
+                    t.hit("programs");
+                }
+                return t;
+            }
             if prop == "C08" {
                 explore_attrs(*i, e, *first, thorough, &mut t);
                 if first.is_none() {
